@@ -49,7 +49,7 @@ def main():
             if pr.returncode not in (0, 1):
                 print(pr.stdout[-1500:])
         if "checks_first_run" not in meta:
-            meta["checks_first_run"] = meta.get("checks", {})
+            meta["checks_first_run"] = meta.get("checks") or results
         meta["checks"] = results
         meta["rechecked_at"] = time.strftime("%Y-%m-%dT%H:%M:%SZ", time.gmtime())
         json.dump(meta, open(os.path.join(dst, "meta.json"), "w"), indent=1)
